@@ -219,3 +219,103 @@ fn(H + ':select_item_html', props=P,
             'result is None or sel_ranges_ok(result)',
             'result is None or (result.start < pos if is_prev else result.end > pos)'],
    modifies=[], allocates=True)
+
+# ---------------------------------------------------------------------------------------
+# css.py: sections, properties, next / previous item -- closures handed to css_matcher.scan()
+# ---------------------------------------------------------------------------------------
+C = 'emmet.action_utils.css'
+cls(C + ':CSSProperty', fields={'name': 'tuple[int,int]', 'value': 'tuple[int,int]',
+                                'value_tokens': 'list[tuple[int,int]]', 'before': 'int', 'after': 'int'})
+cls(C + ':CSSSection', fields={'start': 'int', 'end': 'int', 'body_start': 'int', 'body_end': 'int',
+                               'properties': 'list[CSSProperty]|None'})
+cls(C + ':ParseState', fields={'type': 'str|None', 'start': 'int', 'end': 'int', 'value_start': 'int',
+                               'value_end': 'int', 'value_delimiter': 'int'})
+cls(C + ':ParsePropertiesState', fields={'pending_name': 'list[int]|None', 'nested': 'int', 'before': 'int'})
+for _k in ('CSSSection', 'ParseState', 'ParsePropertiesState'):
+    fn(C + ':%s.__init__' % _k, inline=True, props=P)
+fn(C + ':alloc_range', inline=True, props=P)
+fn(C + ':release_range', inline=True, props=P)
+
+fn(C + ':CSSProperty.__init__', props=P,
+   params={'self': 'CSSProperty', 'code': 'str', 'name': 'list[int]', 'before': 'int', 'start': 'int', 'end': 'int',
+           'delimiter': 'int', 'offset': 'int'}, returns='none',
+   requires=['len(name) >= 2', '0 <= start', 'start <= end', 'end <= len(code)'],
+   ensures=['self.name[0] == offset + name[0] and self.name[1] == offset + name[1]',
+            'self.value[0] == offset + start and self.value[1] == offset + end',
+            'self.before == before',
+            # right after the terminating `;`, or the end of the value when nothing terminates it
+            'self.after == offset + (delimiter + 1 if delimiter != -1 else end)',
+            'fresh(self.value_tokens)',
+            'forall(0, len(self.value_tokens), lambda i: range_in(self.value_tokens[i], offset + start, offset + end))'],
+   modifies=['self.name', 'self.value', 'self.value_tokens', 'self.before', 'self.after'], allocates=True)
+
+# what css_matcher.scan() promises about every token it reports (its callback contract, over `code`)
+CCB_PARAMS = {'token_type': 'str', 'start': 'int', 'end': 'int', 'delimiter': 'int'}
+
+
+def _ccb_req(src):
+    return [r.replace('source', src) for r in [
+        '0 <= start', 'start <= end', 'end <= len(source)',
+        'delimiter == -1 or (0 <= delimiter and delimiter < len(source))',
+        'delimiter == -1 or end <= delimiter + 1',
+        "token_type == 'selector' or token_type == 'propertyName' or token_type == 'propertyValue' "
+        "or token_type == 'blockEnd'",
+        "implies(token_type == 'selector', delimiter != -1 and source[delimiter] == '{')",
+        "implies(token_type == 'blockEnd', delimiter == start and end == start + 1 and source[start] == '}')",
+        'g_last <= start', 'not g_final']]
+
+
+CCB_GHOST = [('g_last', 'max(end, delimiter)'), ('g_final', 'delimiter == -1')]
+
+# a selector token on the stack: [start, end, position of its `{`], reported before anything later
+define('sel_tok', ['t', 'code', 'g_last'],
+       'len(t) == 3 and 0 <= t[0] and t[0] <= t[1] and t[1] <= t[2] + 1 and 0 <= t[2] and t[2] < len(code) and '
+       "code[t[2]] == '{' and t[2] <= g_last")
+# the section is a rule of `code` around the position: `{` right before the body, `}` right after it
+define('sec_ok', ['s', 'code', 'pos'],
+       '0 <= s.start and s.start <= pos and pos <= s.end and s.end <= len(code) and '
+       's.start <= s.body_start and s.body_start <= s.body_end and s.body_end + 1 == s.end and '
+       "code[s.body_start - 1] == '{' and code[s.body_end] == '}'")
+
+GS_CAP = {'stack': 'list[list[int]]', 'pool': 'list[list[int]]', 'result': 'list[CSSSection|None]',
+          'pos': 'int', 'code': 'str', 'g_last': 'int', 'g_final': 'bool'}
+GS_INV = ['len(result) == 1', 'pool is not stack', 'owned(pool) and owned(stack) and owned(result)',
+          'forall(0, len(stack), lambda i: owned(stack[i]))', 'forall(0, len(pool), lambda i: owned(pool[i]))',
+          'result[0] is None or owned(result[0])',
+          'forall(0, len(stack), lambda i: sel_tok(stack[i], code, g_last))',
+          'forall(0, len(pool), lambda i: len(pool[i]) == 3)',
+          'result[0] is None or (sec_ok(result[0], code, pos) and result[0].properties is None)']
+
+fn(C + ':get_css_section.<locals>.scan_callback', props=P,
+   params=CCB_PARAMS, returns='bool|None', captures=GS_CAP,
+   requires=_ccb_req('code'), closure_invariant=GS_INV, modifies=['owned'], ghost_update=CCB_GHOST)
+
+# one parsed declaration, in coordinates of the whole source: name, value and value tokens in order, inside
+# [lo, hi]; `before` is at or before the name, `after` at or after the value
+define('prop_ranges_ok', ['p', 'lo', 'hi'],
+       'lo <= p.name[0] and p.name[0] <= p.name[1] and p.name[1] <= p.value[0] and p.value[0] <= p.value[1] '
+       'and p.value[1] <= hi and p.value[1] <= p.after and p.after <= hi and lo <= p.before and p.before <= p.name[0]')
+define('prop_tokens_ok', ['p'],
+       'forall(0, len(p.value_tokens), lambda i: range_in(p.value_tokens[i], p.value[0], p.value[1]))')
+
+# a pending property name [start, end, delimiter] in fragment coordinates
+define('pend_ok', ['t', 'n', 'g_last', 'g_final'],
+       'len(t) == 3 and 0 <= t[0] and t[0] <= t[1] and t[1] <= n and t[1] <= g_last and '
+       '(t[2] == -1 or (0 <= t[2] and t[2] < n and t[1] <= t[2] + 1 and t[2] <= g_last)) and (t[2] != -1 or g_final)')
+
+PP_CAP = {'state': 'ParsePropertiesState', 'pool': 'list[list[int]]', 'result': 'list[CSSProperty]',
+          'fragment': 'str', 'parse_from': 'int', 'g_last': 'int', 'g_final': 'bool'}
+PP_INV = ['owned(pool) and owned(result) and owned(state)',
+          'forall(0, len(pool), lambda i: owned(pool[i]))', 'forall(0, len(result), lambda i: owned(result[i]))',
+          'state.pending_name is None or owned(state.pending_name)',
+          'forall(0, len(pool), lambda i: len(pool[i]) == 3)',
+          'state.pending_name is None or pend_ok(state.pending_name, len(fragment), g_last, g_final)',
+          # `before` never runs ahead of what has been reported
+          'parse_from <= state.before and state.before <= parse_from + g_last + 1',
+          'state.pending_name is None or state.before <= parse_from + state.pending_name[0]',
+          'forall(0, len(result), lambda i: prop_ranges_ok(result[i], parse_from, parse_from + len(fragment)))',
+          'forall(0, len(result), lambda i: owned(result[i].value_tokens) and prop_tokens_ok(result[i]))']
+
+fn(C + ':parse_properties.<locals>.scan_callback', props=P,
+   params=CCB_PARAMS, returns='bool|None', captures=PP_CAP,
+   requires=_ccb_req('fragment'), closure_invariant=PP_INV, modifies=['owned'], ghost_update=CCB_GHOST)
